@@ -31,7 +31,7 @@ RULE = ("seeded cases: imaging dataset (mask with footprint inside the frame, 4.
         "function lists with signed/tiny matrices, regularised or not); a case = (dataset, object list); distinct by hash of "
         "(mask, kernel, data, noise, mapping matrices); non-trivial = kernel larger than 1x1 or more than one object")
 BOUNDS = {"quick": "256 cases x 2 formalisms (+ block permutations), n<=36 unmasked pixels",
-          "thorough": "8000 cases x 2 formalisms"}
+          "thorough": "30000 cases x 2 formalisms"}
 EXHAUSTIVE = {"quick": False, "thorough": False}
 ASSUMPTIONS = ["assembled quantities compared with |got-ref| <= 1e-8*max(1,|ref|inf); reconstructions compared only when cond(F+H) <= 1e8 (1e-6*scale), otherwise counted and skipped",
                "the objects' own mapping matrices are taken as given here (their correctness is C06)"]
@@ -43,7 +43,7 @@ RT = 1e-8
 
 
 def plan(tier, seed):
-    n = 256 if tier == "quick" else 8000
+    n = 256 if tier == "quick" else 30000
     step = 4 if tier == "quick" else 25
     return [{"kind": "inv", "start": s, "stop": min(n, s + step), "w": step} for s in range(0, n, step)]
 
